@@ -396,6 +396,15 @@ func c17Gen(r *vRand) *c17Case {
 		if c.Root.add("ncl", &c17Node{Kind: "link", Target: tgt}) {
 			tag("shape=unclean-absolute-target")
 		}
+	case 7: // a secret below the output dir reached through a symlinked directory (F16, secret form)
+		sub := c17Dir()
+		sub.add("sec", &c17Node{Kind: "file", Data: "TOP-SECRET-sub"})
+		if c.Root.add("f16sub", sub) {
+			c.Secrets = append(c.Secrets, c17Ctr+"/f16sub/sec")
+			c.Root.add("f16sd", &c17Node{Kind: "link", Target: "f16sub"})
+			c.Root.add("f16sl", &c17Node{Kind: "link", Target: "f16sd/sec"})
+			tag("shape=F16-secret")
+		}
 	case 4: // two-link cycle
 		c.Root.add("cycA", &c17Node{Kind: "link", Target: "cycB"})
 		c.Root.add("cycB", &c17Node{Kind: "link", Target: "cycA"})
